@@ -153,6 +153,8 @@ def run(ctx):
     trim_rule(ctx, syn)
     case_rule(ctx, syn)
     regexbase_rule(ctx)
+    regexflags_rule(ctx, prog)
+    overlap_rule(ctx, prog)
     r_seg = ctx.rule("C07.SEG", "SegmentationIter::next returns cursor..X and advances cursor to the same X; it stops only when cursor >= end")
     sg = syn.fn("next", self_ty="SegmentationIter", trait="Iterator")
     ctx.functions_analysed.add(sg.qual)
@@ -455,3 +457,63 @@ def regexbase_rule(ctx, rid="C07.REGEXBASE"):
                 elif not all("resources::TextResource" in a_[1] or "resources::TextResource" in a_[0] for a_ in asks):
                     ctx.report(r, key + "|relative-base", "%s takes the beginbytepos of its FindRegexIter from subslice_utf8_offset on %s instead of on the TextResource: that offset is relative to the selection itself (always 0), so every match of a selection that does not begin at byte 0 is reported at the wrong place" % (bid, [a_[1] for a_ in asks if "resources::TextResource" not in a_[1]][0][:50]), b.file, s_.get("line"))
     ctx.floor(r, n, 3, "FindRegexIter constructions")
+
+
+
+# ---------------------------------------------------------------------- REGEXFLAGS
+def regexflags_rule(ctx, prog, rid="C07.REGEXFLAGS"):
+    """a compiled Regex carries the flags it was built with (case-insensitive, multi-line ..); its pattern text
+    (`as_str()`) does not.  A RegexSet rebuilt from the pattern texts of compiled expressions therefore matches
+    something else than the expressions do, and a preselection through it drops expressions that would have matched.
+    Type-directed: no body builds a RegexSet (RegexSet::new) from Regex::as_str, directly or through a closure it
+    creates."""
+    r = ctx.rule(rid, "no RegexSet is rebuilt from the pattern text of compiled expressions (Regex::as_str loses the flags of the expression)")
+    n = 0
+    for bid, b in sorted(prog.bodies.items()):
+        if b.d.get("derived") or "::{closure" in bid:
+            continue
+        calls = [(bi, t, mirq.callee_of(t)[0] or "") for bi, t in b.calls() if not b.blocks[bi].get("cleanup")]
+        if not any(re.search(r"^regex::", d) for _, _, d in calls) and not any("regex::" in str(l_.get("ty")) for l_ in b.d.get("locals", [])[: b.argc + 1]):
+            continue
+        n += 1
+        ctx.functions_analysed.add(bid)
+        news = [(bi, t) for bi, t, d in calls if re.search(r"RegexSet::new$", d)]
+        if not news:
+            r.hit(bid)
+            continue
+        own = [prog.bodies[k] for k in prog.bodies if k.startswith(bid + "::{closure")] + [b]
+        texts = [x.id for x in own if any((mirq.callee_of(t)[0] or "").endswith("Regex::as_str") for _, t in x.calls())]
+        r.hit(bid, sample={"body": bid, "RegexSet::new": len(news), "pattern_text_taken_in": texts})
+        if texts:
+            ctx.report(r, "%s|set-from-pattern-text" % mirq.short_fn(bid), "%s builds a RegexSet from Regex::as_str() of compiled expressions: the set matches the bare patterns, without the flags the expressions were built with - an expression built case-insensitively is dropped by the preselection although it matches (the result of a search changes when a third expression is added)" % bid, b.file, news[0][1].get("line"))
+    ctx.floor(r, n, 6, "bodies that handle regular expressions")
+
+
+
+# ---------------------------------------------------------------------- OVERLAP
+def overlap_rule(ctx, prog, rid="C07.OVERLAP"):
+    """FindRegexIter keeps one buffered match per expression.  With allow_overlap=false, after a match is chosen every
+    buffered match of the other expressions that begins inside it has to go - as many as there are, so the refill of a
+    buffer sits in a loop of its own inside the walk over the buffers (MIR: the Matches::next call inside that walk can
+    reach itself without returning to the head of the walk)."""
+    r = ctx.rule(rid, "in FindRegexIter::next the buffered matches that begin inside the chosen match are skipped in a loop (the refill can repeat without leaving the current buffer)")
+    bs = prog.find_bodies(r"FindRegexIter<'store, 'regex> as std::iter::Iterator>::next$")
+    if len(bs) != 1:
+        ctx.anchor_missing(r, "<FindRegexIter as Iterator>::next")
+        return
+    b = bs[0]
+    ctx.functions_analysed.add(b.id)
+    nexts = [(bi, t, (t.get("at") or [""])[0]) for bi, t in b.calls() if not b.blocks[bi].get("cleanup") and (mirq.callee_of(t)[0] or "").endswith("Iterator::next")]
+    walks = [bi for bi, t, at in nexts if re.search(r"Enumerate<std::slice::IterMut<", at)]
+    if len(walks) != 1:
+        ctx.anchor_missing(r, "the walk over the buffered matches (enumerate over iter_mut) in FindRegexIter::next (found %d)" % len(walks))
+        return
+    L = walks[0]
+    refills = [bi for bi, t, at in nexts if re.search(r"api::text::Matches<", at) and b.can_reach(L, bi) and b.can_reach(bi, L)]
+    r.hit(b.id, sample={"walk_head": L, "refills_inside_the_walk": refills})
+    if not refills:
+        ctx.report(r, "no-refill", "FindRegexIter::next no longer refills the buffers of other expressions inside the walk over the buffered matches: with allow_overlap=false overlapping matches are returned", b.file, b.line)
+        return
+    for x in refills:
+        if not b.can_reach(x, x, avoid={L}):
+            ctx.report(r, "single-refill", "FindRegexIter::next refills the buffer of another expression once per chosen match: when the refilled match still begins inside the chosen one (`abcdef` chosen, `[a-z]` buffered) it stays buffered and is returned next, overlapping the previous result although allow_overlap is false", b.file, b.blocks[x]["t"].get("line"))
